@@ -248,6 +248,8 @@ def discharge(vc: VC, base: list[Any], timeout_s: float, use_cvc5: bool = True, 
                 # power of two): a failed proof there is 'undecided', never a violation
                 vc.status = "unknown"
                 vc.detail = f"{kind}: counter-model relies on an uninterpreted bit-operation abstraction"
+                vc.model = m
+                vc.abstract_cex = True  # type: ignore[attr-defined]
                 break
             vc.status, vc.backend = "failed", kind
             vc.model = m
@@ -446,6 +448,21 @@ def _verify_variant(c: Contract, tier: str, replay: bool, res: Result, choice: d
         res.solver_time_s += vc.time_s
         res.by_backend[vc.backend] = res.by_backend.get(vc.backend, 0) + 1
         d = {"name": vc.name, "kind": vc.kind, "status": vc.status, "backend": vc.backend, "time_s": round(vc.time_s, 4), "site": vc.site}
+        if vc.status == "unknown" and getattr(vc, "abstract_cex", False) and vc.model is not None and replay and not c.canary:
+            # a counter-model that lives in an abstraction counts only if it replays on the real code
+            rp = replay_concrete(c, vals, vc.model, choice)
+            if not rp.get("confirmed"):
+                leaves0: list[Any] = []
+                sampling.sym_leaves(list(vals.values()), leaves0)
+                for m2 in sampling.sample_models(base + list(vc.pc), leaves0, 40, 2000 + len(res.failures), extra=[z3.Not(vc.cond)]):
+                    rp = replay_concrete(c, vals, m2, choice)
+                    if rp.get("confirmed"):
+                        vc.model = m2
+                        break
+            if rp.get("confirmed"):
+                vc.status, vc.backend = "failed", "z3+replay"
+                vc.detail = "abstract counter-model confirmed by replay on the real code"
+                d["status"], d["backend"] = vc.status, vc.backend
         if vc.status == "proved":
             res.n_discharged += 1
         elif vc.status == "failed":
